@@ -180,6 +180,13 @@ class OrderedMultiDict(dict):
         self.clear()
         self.update_extend(state)
 
+    def __reduce__(self):
+        # Reduce to the list-of-pairs state only. The default reduction
+        # of a dict subclass also emits (key, value) items, which the
+        # copy module replays through __setitem__ after __setstate__,
+        # collapsing every key to its last value.
+        return (self.__class__, (), self.__getstate__())
+
     def _clear_ll(self):
         try:
             _map = self._map
